@@ -148,11 +148,11 @@ macro_rules! c08 {
     };
 }
 
-// @verif property=C08,C01 tier=quick timeout=600 bounds="data: 0 bytes; <= 2 Interrupted results" covers=0
+// @verif property=C08 tier=quick timeout=600 bounds="data: 0 bytes; <= 2 Interrupted results" covers=0
 c08!(c08_sniff_n0, 0, 2, false, 8);
-// @verif property=C08,C01 tier=quick timeout=600 bounds="data: 1 arbitrary byte; every chunk schedule; <= 2 Interrupted results at symbolic refills" covers=1
+// @verif property=C08 tier=quick timeout=600 bounds="data: 1 arbitrary byte; every chunk schedule; <= 2 Interrupted results at symbolic refills" covers=1
 c08!(c08_sniff_n1, 1, 2, false, 8);
-// @verif property=C08,C01 tier=quick timeout=600 bounds="data: 2 arbitrary bytes; every chunk schedule (sizes 1..2); <= 2 Interrupted" covers=3
+// @verif property=C08 tier=quick timeout=600 bounds="data: 2 arbitrary bytes; every chunk schedule (sizes 1..2); <= 2 Interrupted" covers=3
 c08!(c08_sniff_n2, 2, 2, false, 8);
 // @verif property=C08,C01 tier=quick timeout=600 bounds="data: 3 arbitrary bytes; every chunk schedule (sizes 1..3); <= 2 Interrupted" covers=4
 c08!(c08_sniff_n3, 3, 2, false, 8);
